@@ -3,6 +3,7 @@ import Driver.DictRt
 import Driver.Codec
 import Driver.Mux
 import Model.SM
+import Model.LocalAddr
 import Spec.SMSpec
 /-! Driver.SM — the `smserver` correspondence domain (C10, C11, C13 server side, C16 CEA/DWA). -/
 namespace DV.Drv
@@ -18,19 +19,26 @@ def settingsMenu (k : Nat) : Settings :=
   | 2 => { originHost := bytesOfStr "srv2", originRealm := bytesOfStr "r2", vendorId := 4294967295, productName := bytesOfStr "p", firmware := 1 }
   | _ => { originHost := bytesOfStr "h", originRealm := bytesOfStr "r", vendorId := 1, productName := bytesOfStr "x", hostIPs := [[10, 0, 0, 9]] }
 
-/-- `getLocalAddresses` on the endpoint strings of the harness' menu -/
+/-- the harness' menu of local endpoint strings, as entries (what `net.ParseIP` makes of each part
+    once the brackets of an IPv6 entry are removed) and whether the port parses -/
+def localEndpoint (s : String) : Bool × List HostEntry :=
+  let v6 (k : Nat) : Bytes := [0x20, 0x01, 0x0d, 0xb8, 0, 0, 0, 0, 0, 0, 0, 0, 0, 0, 0, UInt8.ofNat k]
+  if s = "v4" then (true, [.ip [10, 1, 2, 3]])                                   -- 10.1.2.3:3868
+  else if s = "loop" then (true, [.ip [127, 0, 0, 1]])                           -- 127.0.0.1:3868
+  else if s = "multi" then (true, [.ip [10, 0, 0, 1], .ip [10, 0, 0, 2]])          -- 10.0.0.1/10.0.0.2:3868
+  else if s = "multiloop" then (true, [.ip [127, 0, 0, 1], .ip [10, 0, 0, 2]])     -- 127.0.0.1/10.0.0.2:3868
+  else if s = "v6" then (true, [.ip [0,0,0,0,0,0,0,0,0,0,0,0,0,0,0,1]])            -- [::1]:3868
+  else if s = "v6g" then (true, [.ip (v6 7)])                                    -- [2001:db8::7]:3868
+  else if s = "v6z" then (true, [.unparseable])                                  -- [fe80::1%eth0]:3868 (zoned)
+  else if s = "mix6" then (true, [.ip [127, 0, 0, 1], .ip [10, 0, 0, 3], .ip (v6 8)])  -- 127.0.0.1/10.0.0.3/[2001:db8::8]:3868
+  else if s = "empty" then (true, [.unparseable])                                -- "" (no local address)
+  else if s = "badport" then (false, [.ip [10, 1, 2, 3]])                        -- 10.1.2.3:38x8
+  else (true, [])
+
+/-- `getLocalAddresses` (Model.LocalAddr) on the endpoint -/
 def localMenu (s : String) : Option (List Bytes) :=
-  if s = "v4" then some [[10, 1, 2, 3]]
-  else if s = "loop" then some [[127, 0, 0, 1]]
-  else if s = "multi" then some [[10, 0, 0, 1], [10, 0, 0, 2]]
-  else if s = "multiloop" then some [[10, 0, 0, 2]]
-  else if s = "v6" then some [[0,0,0,0,0,0,0,0,0,0,0,0,0,0,0,1]]              -- [::1]:3868: the only address is the loopback
-  else if s = "v6g" then some [[0x20,0x01,0x0d,0xb8,0,0,0,0,0,0,0,0,0,0,0,7]]     -- [2001:db8::7]:3868
-  else if s = "v6z" then some []                                                -- [fe80::1%eth0]:3868: zoned, not advertised
-  else if s = "mix6" then some [[10, 0, 0, 3], [0x20,0x01,0x0d,0xb8,0,0,0,0,0,0,0,0,0,0,0,8]]  -- 127.0.0.1/10.0.0.3/[2001:db8::8]:3868
-  else if s = "empty" then some []
-  else if s = "badport" then none
-  else some []
+  let (portOk, hosts) := localEndpoint s
+  getLocalAddresses portOk hosts
 
 def supportedApps : List SApp :=
   (Gen.dictFiles.flatten.filter (fun a => a.1 ≠ 0)).map (fun (id, typ, vendors, _, _) =>
